@@ -180,6 +180,20 @@ func (e *SpecEnv) eval(x ast.Expr) Val {
 				return intV(intLit(-n))
 			}
 			return Val{K: v.K, T: sx("-", v.T)}
+		case token.AND:
+			// &x.f : pointer to a heap field, as the uninterpreted term fieldptr_<f>(x)
+			if sel, ok := x.X.(*ast.SelectorExpr); ok {
+				base := e.eval(sel.X)
+				if base.K == KRef {
+					if sty, ok := e.run.structTypeOf(base); ok {
+						fi := e.run.prog.World.field(sty, sel.Sel.Name)
+						fl := &fieldLoc{r: e.run, ref: base.T, fi: fi}
+						pt := types.NewPointer(fi.goType)
+						return Val{K: KRef, T: e.run.toTerm(e.st, Val{K: KPtr, P: fl}, pt), Sort: e.run.prog.World.sortOf(pt), Go: pt}
+					}
+				}
+			}
+			specFail("unsupported address-of in spec")
 		case token.MUL:
 			// *p in specs
 		}
@@ -233,9 +247,21 @@ func (e *SpecEnv) eval(x ast.Expr) Val {
 		}
 	case *ast.IndexExpr:
 		base := e.eval(x.X)
+		if base.K == KRef && strings.HasPrefix(base.Sort, "M_") && base.Go != nil {
+			if mt, ok := types.Unalias(base.Go).Underlying().(*types.Map); ok {
+				k := e.eval(x.Index)
+				return e.run.mapGet(e.st, base, k, mt).Tup[0]
+			}
+		}
 		idx := e.numOf(x.Index)
 		if base.K == KSlice {
 			return e.run.sliceElem(e.st, base.S, idx.T)
+		}
+		if base.K == KRef && strings.HasPrefix(base.Sort, "M_") && base.Go != nil {
+			if mt, ok := types.Unalias(base.Go).Underlying().(*types.Map); ok {
+				k := e.eval(x.Index)
+				return e.run.mapGet(e.st, base, k, mt).Tup[0]
+			}
 		}
 		if base.K == KRef && strings.HasPrefix(base.Sort, "(Array Int") {
 			es := strings.TrimSuffix(strings.TrimPrefix(base.Sort, "(Array Int "), ")")
@@ -287,6 +313,9 @@ func specEq(w *World, a, b Val) string {
 		case KErr:
 			return a.T
 		case KRef:
+			if strings.HasPrefix(a.Sort, "M_") {
+				return sx("isnil"+a.Sort, a.T)
+			}
 			return eq(a.T, w.nilOf(a.Sort))
 		case KFunc:
 			if a.Fn.term != "" {
@@ -437,6 +466,13 @@ func (e *SpecEnv) evalCall(x *ast.CallExpr) Val {
 		}
 		e.run.declBirth(v.Sort)
 		return boolV(sx("<=", sx("birth_"+sanitize(v.Sort), v.T), "0"))
+	case "mapHas":
+		m := arg(0)
+		if m.K != KRef || !strings.HasPrefix(m.Sort, "M_") || m.Go == nil {
+			specFail("mapHas of %s", m)
+		}
+		mt := types.Unalias(m.Go).Underlying().(*types.Map)
+		return e.run.mapGet(e.st, m, arg(1), mt).Tup[1]
 	case "boxReal":
 		e.run.needData()
 		return Val{K: KRef, T: sx(e.run.boxFn("Real", "Data"), toReal(arg(0))), Sort: "Data"}
